@@ -348,6 +348,33 @@ def check_open(core, parser, version, seg, idxs, level, rec):
                       row='%s|%s' % (version, seg))
 
 
+def check_varies(core, parser, version, row, comps, level, rec):
+    """components of a `varies` field are addressed by number (VARIES_n): each is encoded at, and parsed from, its own
+    component position, whichever of the others are present"""
+    seg = row.segment
+    case = {'kind': 'varies', 'version': version, 'segment': seg, 'row': row.name, 'components': comps, 'level': level}
+    rowkey = '%s|%s|%s' % (version, seg, row.name)
+    rec.evaluation(('v', version, seg, row.name, tuple(comps), level))
+    try:
+        s = core.Segment(seg, version=version, validation_level=level)
+        for n in comps:
+            setattr(getattr(s, row.name.lower()), 'varies_%d' % n, 'w%d' % n)
+        er = s.to_er7()
+        name, fields = er7ref.tokenize_segment(er, er7ref.STD)
+        lv = er7ref.leaves(fields)
+        want = [((row.num, 1, n, 1), 'w%d' % n) for n in sorted(comps)]
+        rec.count('varies_component_positions_checked', len(comps))
+        if lv != want:
+            rec.violation('varies-component-wrong-position', case, {'encoded': er[:200]}, row=rowkey)
+            return
+        s2 = parser.parse_segment(er, version=version, validation_level=level)
+        if s2.to_er7() != er:
+            rec.violation('varies-component-parse-mismatch', case, {'text': er[:200], 'reencoded': s2.to_er7()[:200]},
+                          row=rowkey)
+    except Exception as e:
+        rec.violation('varies-component-raised:%s' % type(e).__name__, case, {'exc': repr(e)[:200]}, row=rowkey)
+
+
 def run_open(spec, rec):
     from hl7apy import core, parser
     rng = gen.rng_for(spec['seed'], 'c02-open')
@@ -364,6 +391,11 @@ def run_open(spec, rec):
                 idxs = sorted(rng.sample(range(first_free, first_free + max(N, 200)), k))
                 check_open(core, parser, v, seg, idxs, 2, rec)
             rec.seen('open_ended_segments', '%s %s' % (v, seg))
+        for seg, rows in sorted(tables.segments(v).items()):
+            for row in rows or []:
+                if row.ok and row.datatype == 'varies' and row.card[1] != 0 and row.num:
+                    for comps in ([1], [2], [3], [1, 3], [2, 5], [1, 2, 3], [4, 9]):
+                        check_varies(core, parser, v, row, comps, 2, rec)
     rec.sample({'kind': 'open', 'example': 'Segment(ZZ1).zz1_37 = v37 -> 37 separators'})
 
 
